@@ -9,14 +9,20 @@ PID = "C29"
 RULE = ("histories = (last, head, change levels in (last, head], value kind, step): exhaustive for range lengths "
         "1..N (N=24 quick, 40 thorough) with 0..2 change points and steps {1,2,7,60}; hypothesis-sampled ranges up to "
         "300 levels with up to 6 change points and steps 1..400; values are fresh tokens (never return to an earlier "
-        "value) of kind str/int/dict/tuple; oracle: find_state_changes == [(level, new value)] increasing, "
+        "value) of kind str/int/dict/tuple, histories that start from None or pass through None, and falsy values (0, '', [], {}, ()); oracle: find_state_changes == [(level, new value)] increasing, "
         "find_state_change == first change, get() only called inside [last, head]. Non-trivial: >=1 change point. "
         "Distinct = distinct history.")
 
-KINDS = ["str", "int", "dict", "tuple"]
+KINDS = ["str", "int", "dict", "tuple", "none-first", "none-later", "falsy"]
 
 
 def _val(kind, i):
+    if kind == "none-first":   # nothing stored before the first change (e.g. a contract not yet originated)
+        return None if i == 0 else "v%d" % i
+    if kind == "none-later":   # the value disappears at the first change and comes back different afterwards
+        return None if i == 1 else "v%d" % i
+    if kind == "falsy":        # falsy but real values: 0, "", [] ...
+        return [0, "", [], {}, (), None, "x", 7][i] if i < 8 else i + 100
     if kind == "str":
         return "v%d" % i
     if kind == "int":
@@ -116,7 +122,7 @@ def run(h):
                 for si, step in enumerate((1, 2, 7, 60)):
                     last = (3, 0)[(n + si) % 2]
                     items.append({"last": last, "head": last + n, "cps": [last + c for c in cps],
-                                  "kind": KINDS[(n + k + si + len(items)) % 4], "step": step})
+                                  "kind": KINDS[(n + k + si + len(items)) % len(KINDS)], "step": step})
     h.exhaustive = True
     h.coverage_extra["exhaustive_subdomain"] = "range lengths 1..%d x <=2 change points x steps {1,2,7,60}" % N
     h.run_enum(items, _prop, shards=16)
